@@ -351,6 +351,7 @@ func checkC14(w *World, r *Report) {
 	r.Counts["buffer re-allocations in producing functions"] = nGrow
 	checkNoAliasedHeaders(w, r, "R14.3")
 	checkConstantCuts(w, r, reach)
+	checkConstantScanBounds(w, r, reach)
 }
 
 // checkNoAliasedHeaders (R14.3 / R01.7): no string or slice header is manufactured over memory
@@ -550,5 +551,104 @@ func checkConstantCuts(w *World, r *Report, reach map[*ssa.Function]bool) {
 	}
 	if n == 0 && nLim == 0 {
 		r.ok("R14.4", "(package)", "template data is never cut at a constant position", "-", "no slice expression with a constant bound >= 16 on strings, bytes or tokens, and no constant read limit, on load/parse/render paths", false)
+	}
+}
+
+// checkConstantScanBounds (R14.5): a scan over the template's node list or token list goes on
+// to the end of the list.  A loop whose index walks a []Node or []Token and is also compared
+// with a constant ("the tag is one of the first two nodes") makes where a construct stands
+// matter: text or comments inserted in front of it move it past the bound.
+func checkConstantScanBounds(w *World, r *Report, reach map[*ssa.Function]bool) {
+	tokenT := w.named("Token")
+	nodeT := w.named("Node")
+	n, nLoops := 0, 0
+	for _, fn := range w.pkgFuncs() {
+		if !reach[fn] {
+			continue
+		}
+		// loop indexes: integer phis that index a node/token slice (directly or +const)
+		idxPhi := map[*ssa.Phi]ssa.Instruction{}
+		instrsOf(fn, func(in ssa.Instruction) {
+			var x, idx ssa.Value
+			switch ia := in.(type) {
+			case *ssa.IndexAddr:
+				x, idx = ia.X, ia.Index
+			case *ssa.Index:
+				x, idx = ia.X, ia.Index
+			default:
+				return
+			}
+			sl, ok := deref(x.Type()).Underlying().(*types.Slice)
+			if !ok || !(types.Identical(sl.Elem(), tokenT) || types.Identical(sl.Elem(), nodeT)) {
+				return
+			}
+			for k := 0; k < 2; k++ {
+				if bo, ok := idx.(*ssa.BinOp); ok && (bo.Op == token.ADD || bo.Op == token.SUB) {
+					if _, isC := bo.Y.(*ssa.Const); isC {
+						idx = bo.X
+					}
+				}
+			}
+			if ph, ok := idx.(*ssa.Phi); ok {
+				// a loop variable: one of its edges is itself plus a constant
+				for _, e := range ph.Edges {
+					if bo, ok := e.(*ssa.BinOp); ok && bo.Op == token.ADD && bo.X == ssa.Value(ph) {
+						if _, isC := bo.Y.(*ssa.Const); isC {
+							if _, seen := idxPhi[ph]; !seen {
+								idxPhi[ph] = in
+							}
+						}
+					}
+				}
+			}
+		})
+		for ph, at := range idxPhi {
+			nLoops++
+			if ph.Referrers() == nil {
+				continue
+			}
+			for _, ref := range *ph.Referrers() {
+				bo, ok := ref.(*ssa.BinOp)
+				if !ok {
+					continue
+				}
+				switch bo.Op {
+				case token.LSS, token.LEQ, token.GTR, token.GEQ:
+				default:
+					continue
+				}
+				other := bo.Y
+				if other == ssa.Value(ph) {
+					other = bo.X
+				}
+				c, isC := other.(*ssa.Const)
+				if !isC || c.Value == nil || c.Value.Kind() != constant.Int {
+					continue
+				}
+				k, _ := constant.Int64Val(c.Value)
+				if k < 1 {
+					continue
+				}
+				// the comparison must control a branch
+				ctl := false
+				if bo.Referrers() != nil {
+					for _, r2 := range *bo.Referrers() {
+						switch r2.(type) {
+						case *ssa.If, *ssa.Phi:
+							ctl = true
+						}
+					}
+				}
+				if !ctl {
+					continue
+				}
+				n++
+				r.bad("R14.5", ssaName(fn), "scan over the node/token list bounded by a constant", w.posOf(bo.Pos()), fmt.Sprintf("the index that walks the list (%s) is compared with the constant %d: only the first positions are looked at, so a construct is found or missed depending on how many text and comment pieces stand in front of it", w.posOf(at.Pos()), k))
+			}
+		}
+	}
+	r.Counts["index loops over node/token lists"] = nLoops
+	if n == 0 {
+		r.ok("R14.5", "(package)", "no scan over a node or token list is bounded by a constant", "-", fmt.Sprintf("%d index loops over []Node / []Token; none compares its index with a constant >= 1", nLoops), nLoops > 0)
 	}
 }
